@@ -241,3 +241,99 @@ def _dedim(order):
 
 for _o in (0, 1, 2, 3):
     _dedim(_o)
+
+
+@harness("C10", "unit_aware_system_on_the_real_package", functions=["chempy.kinetics.ode:get_odesys", "chempy.kinetics.ode:get_odesys.<locals>._reg_unique", "chempy.util._expr:Expr.dedimensionalisation",
+                                                                  "chempy.units:default_unit_in_registry", "chempy.units:unitless_in_registry"], kind="data")
+def _(v):
+    """end to end with real quantities: free named constants that also carry a (non registry-coherent) value, three reaction orders, three
+    registries -- the reported parameter units are the registry's units for the dimension of each constant, and the physical rate from
+    to_arrays + f_cb equals the rate computed by hand in M and s; a registry dict edited in place is read as it is at the time of the call"""
+    import warnings
+    import numpy as np
+    from chempy.chemistry import Reaction
+    from chempy.reactionsystem import ReactionSystem
+    from chempy.kinetics.ode import get_odesys
+    from chempy.kinetics.rates import MassAction
+    from chempy.units import SI_base_registry, default_units as u, get_derived_unit, to_unitless
+    warnings.simplefilter("ignore")
+    k1, k2, k3 = 3.0 / u.mM / u.minute, 0.5 / u.hour, 7.0 * u.uM / u.s
+    rsys = ReactionSystem([Reaction({"A": 2}, {"B": 1}, MassAction([k1], unique_keys=["k1"])), Reaction({"B": 1}, {"A": 2}, MassAction([k2], unique_keys=["k2"])),
+                           Reaction({}, {"C": 1}, MassAction([k3], unique_keys=["k3"]), checks=())], "A B C")
+    c0 = {"A": 2 * u.mM, "B": 1 * u.uM, "C": 0 * u.M}
+    _k1, _k2, _k3, _A, _B = 3e3 / 60, 0.5 / 3600, 7e-6, 2e-3, 1e-6
+    ref = [-2 * _k1 * _A ** 2 + 2 * _k2 * _B, _k1 * _A ** 2 - _k2 * _B, _k3]
+    regs = {"SI": dict(SI_base_registry), "dm_min_umol": dict(SI_base_registry, length=u.decimetre, time=u.minute, amount=u.micromole), "cm_h": dict(SI_base_registry, length=u.centimetre, time=u.hour)}
+    bad = []
+    for name, reg in regs.items():
+        try:
+            odesys, extra = get_odesys(rsys, include_params=False, unit_registry=reg)
+            conc, tm = get_derived_unit(reg, "concentration"), reg["time"]
+            want_units = [1 / conc / tm, 1 / tm, conc / tm]
+            pu = dict(zip(odesys.param_names, extra["p_units"]))
+            for key, wu in zip(("k1", "k2", "k3"), want_units):
+                if abs(float(to_unitless(1 * pu[key], wu)) - 1) > 1e-12:
+                    bad.append((name, key, str(pu[key])))
+            x, y, p = odesys.to_arrays(0 * u.s, c0, {"k1": k1, "k2": k2, "k3": k3})
+            f = np.asarray(odesys.f_cb(np.ravel(x)[0], np.ravel(y), np.ravel(p)), dtype=float).ravel()
+            phys = [float(to_unitless(fi * conc / tm, u.molar / u.s)) for fi in f]
+            if not np.allclose(phys, ref, rtol=1e-10, atol=0):
+                bad.append((name, "rate", phys, ref))
+        except Exception as ex:
+            bad.append((name, repr(ex)[:200]))
+    v.prove("reported_parameter_units_and_physical_rates", not bad, detail=repr(bad[:4]))
+    try:
+        reg = dict(SI_base_registry)
+        ma = MassAction([k1])
+        rxn = rsys.rxns[0]
+        (u1,), inst1 = ma.dedimensionalisation(reg)
+        reg["length"], reg["time"] = u.decimetre, u.minute
+        (u2,), inst2 = ma.dedimensionalisation(reg)
+        a1, a2 = float(inst1.args[0]), float(inst2.args[0])
+        # 3/(mM*min) = 3000 dm3/(mol*min) = 0.05 m3/(mol*s)
+        ok = abs(a1 / 0.05 - 1) < 1e-9 and abs(a2 / 3000.0 - 1) < 1e-9
+        det = "%r %r %s %s" % (a1, a2, u1, u2)
+    except Exception as ex:
+        ok, det = False, repr(ex)
+    v.prove("registry_edited_in_place_is_read_again", ok, detail=det)
+
+
+@harness("C10", "wrapped_constants", functions=["chempy.chemistry:Reaction.check_consistent_units", "chempy.util._expr:Expr.dedimensionalisation", "chempy.kinetics.ode:get_odesys"], kind="data")
+def _(v):
+    """'accepts a unit-carrying rate constant iff its dimension is concentration^(1-order)/time' also when the constant is wrapped in a rate
+    expression or handed in through `substitutions`: a constant of the wrong dimension must be refused somewhere on the way to the ODE system,
+    or at least must not produce a physical rate that depends on the registry"""
+    import warnings
+    import numpy as np
+    from chempy.chemistry import Reaction
+    from chempy.reactionsystem import ReactionSystem
+    from chempy.kinetics.ode import get_odesys
+    from chempy.kinetics.rates import MassAction, Arrhenius
+    from chempy.units import SI_base_registry, default_units as u, get_derived_unit, to_unitless
+    warnings.simplefilter("ignore")
+    c0 = {"A": 1 * u.molar, "B": 2 * u.molar, "C": 0 * u.molar}
+    regs = (SI_base_registry, dict(SI_base_registry, length=u.cm), dict(SI_base_registry, length=u.dm))
+
+    def rates(rxn, p, **kw):
+        out = []
+        rsys = ReactionSystem([rxn], "A B C")
+        for reg in regs:
+            o, e = get_odesys(rsys, unit_registry=reg, **kw)
+            x, y, pp = o.to_arrays(1 * u.s, c0, p)
+            f = np.asarray(o.f_cb(np.ravel(x)[0], np.ravel(y), np.ravel(pp)), dtype=float).ravel()
+            out.append(float(to_unitless(f[0] * get_derived_unit(reg, "concentration") / reg["time"], u.molar / u.s)))
+        return out
+
+    def verdict(make):
+        try:
+            r = make()
+        except Exception:
+            return "refused", None
+        return ("independent" if max(r) - min(r) <= 1e-9 * max(abs(x) for x in r) else "registry dependent"), r
+    good = verdict(lambda: rates(Reaction({"A": 1, "B": 1}, {"C": 1}, MassAction([3 / u.molar / u.s])), {}))
+    v.prove("right_dimension_wrapped_is_accepted_and_registry_independent", good[0] == "independent" and abs(good[1][0] + 6.0) < 1e-9, detail=repr(good))
+    for label, make in (("MassAction", lambda: rates(Reaction({"A": 1, "B": 1}, {"C": 1}, MassAction([3 / u.s])), {})),
+                        ("MassAction_of_Arrhenius", lambda: rates(Reaction({"A": 1, "B": 1}, {"C": 1}, MassAction(Arrhenius([3 / u.s, 0 * u.K]))), {"temperature": 300 * u.K})),
+                        ("substitution", lambda: rates(Reaction({"A": 1, "B": 1}, {"C": 1}, "k1"), {}, substitutions={"k1": 3 / u.s}))):
+        res = verdict(make)
+        v.prove("wrong_dimension_" + label + "_refused_or_harmless", res[0] in ("refused", "independent"), detail=repr(res))
